@@ -79,7 +79,7 @@ prop('C04', title='Incoming Interests reach exactly the handler of their longest
                 'returns True iff it sent; attach_handler / detach_handler against an assumed trie (refused attach changes nothing, other '
                 'prefixes untouched); legacy _on_interest: longest registered prefix only, at most once, extras exactly as registered; '
                 'legacy set_interest_filter / unset_interest_filter (same clauses as attach / detach). Representation independence of '
-                'the name forms is bounded.',
+                'the name forms is bounded. Dispatcher.register / unregister / dispatch carry the same clauses.',
      level_note='pygtrie (longest_prefix, setdefault, __delitem__) is assumed and validated at run time by the bounded stand-in; '
                 'create_task is modelled as eager execution.',
      technique=T_MIXED)
@@ -216,8 +216,9 @@ prop('C17', title='Prefix registration speaks the forwarder management protocol 
                 'parse_response raise-set and field flow; legacy front-end register / unregister (handler installed or removed first, a '
                 'duplicate refused before any command, one rib command with 1 s lifetime under the semaphore, True iff status 200, every '
                 'other outcome False); auto-registration: main_loop.starting_task (nested-function contract, any number of remembered '
-                'routes) registers every route exactly once, in order, before the start coroutine runs. Command layout and concurrency '
-                'are bounded.',
+                'routes) registers every route exactly once, in order, before the start coroutine runs; make_command_v2: command name = '
+                '/localhost|localhop/nfd/<module>/<command> + one component 08 |p| (68 |n| (07 .. prefix ..)) and nothing else '
+                '(ControlParameters unrolled). The legacy signed command format and concurrency are bounded.',
      level_note='asyncio (Semaphore, sleep advances the ms clock by >= 1), the application and the clock are assumed models.',
      technique=T_MIXED)
 prop('C18', title='State-vector sync merges monotonically and announces exactly when needed', level='proof',
